@@ -92,6 +92,7 @@ type respWalker struct {
 	resolved    map[*ssa.Call]*ssa.Function
 	resolvedCom map[*ssa.Call]*ssa.CallCommon
 	globals     map[*ssa.Global]*robj
+	enumMode    map[string]string
 }
 
 type rFrame struct {
@@ -460,9 +461,20 @@ func (rw *respWalker) assume(fr *rFrame, pt *rPath, c ssa.Value, truth bool) {
 			return
 		}
 		// mode constant
-		for _, side := range []rval{a, b} {
+		for i, side := range []rval{a, b} {
 			if side.k == rvConst && side.c.Kind() == constant.String && rw.modeOf[constant.StringVal(side.c)] && eq {
 				pt.modeKnown = constant.StringVal(side.c)
+			}
+			// the mode kept as a small enum parsed once from the configured string (parseMode): the enum constant stands
+			// for the mode string it is parsed from
+			if side.k == rvConst && side.c.Kind() == constant.Int && eq {
+				t := x.X.Type()
+				if i == 1 {
+					t = x.Y.Type()
+				}
+				if m, ok := rw.enumModes()[t.String()+":"+side.c.ExactString()]; ok {
+					pt.modeKnown = m
+				}
 			}
 		}
 	}
@@ -962,4 +974,101 @@ func uniqueImplementer(p *core.Program, t types.Type) types.Type {
 		return found[0]
 	}
 	return nil
+}
+
+// enumModes: for every in-repo function f(string) T with T a named integer type that the serving function (server.Run
+// or the function holding its body) calls, and every accepted mode string s, the constant f returns for s — found by
+// following f's string comparisons with its parameter fixed to s. Key: T's name + ":" + the constant.
+func (rw *respWalker) enumModes() map[string]string {
+	if rw.enumMode != nil {
+		return rw.enumMode
+	}
+	rw.enumMode = map[string]string{}
+	run := serverRunFn(rw.p)
+	if run == nil {
+		return rw.enumMode
+	}
+	seen := map[*ssa.Function]bool{}
+	for _, b := range run.Blocks {
+		for _, in := range b.Instrs {
+			c, ok := in.(*ssa.Call)
+			if !ok {
+				continue
+			}
+			f := c.Common().StaticCallee()
+			if f == nil || seen[f] || len(f.Blocks) == 0 || !core.InRepo(pkgPathOf(f)) || len(f.Params) != 1 || f.Signature.Results().Len() != 1 {
+				continue
+			}
+			seen[f] = true
+			if bt, ok := f.Params[0].Type().Underlying().(*types.Basic); !ok || bt.Kind() != types.String {
+				continue
+			}
+			rt := f.Signature.Results().At(0).Type()
+			if _, named := types.Unalias(rt).(*types.Named); !named || !isIntegerType(rt) {
+				continue
+			}
+			vals := map[string]string{}
+			dup := map[string]bool{}
+			for m := range rw.modeOf {
+				if v, ok := evalStringSwitch(f, m); ok {
+					k := rt.String() + ":" + v.ExactString()
+					if _, had := vals[k]; had {
+						dup[k] = true
+					}
+					vals[k] = m
+				}
+			}
+			for k, m := range vals {
+				if !dup[k] {
+					rw.enumMode[k] = m
+				}
+			}
+		}
+	}
+	return rw.enumMode
+}
+
+// evalStringSwitch runs f (one string parameter, one constant result) on the constant s: every branch must compare the
+// parameter with a constant string.
+func evalStringSwitch(f *ssa.Function, s string) (constant.Value, bool) {
+	b := f.Blocks[0]
+	for steps := 0; steps < 200; steps++ {
+		switch last := b.Instrs[len(b.Instrs)-1].(type) {
+		case *ssa.Return:
+			if len(last.Results) != 1 {
+				return nil, false
+			}
+			c, ok := last.Results[0].(*ssa.Const)
+			if !ok || c.Value == nil {
+				return nil, false
+			}
+			return c.Value, true
+		case *ssa.Jump:
+			b = b.Succs[0]
+		case *ssa.If:
+			bo, ok := last.Cond.(*ssa.BinOp)
+			if !ok || (bo.Op != token.EQL && bo.Op != token.NEQ) {
+				return nil, false
+			}
+			var k *ssa.Const
+			switch {
+			case bo.X == ssa.Value(f.Params[0]):
+				k, _ = bo.Y.(*ssa.Const)
+			case bo.Y == ssa.Value(f.Params[0]):
+				k, _ = bo.X.(*ssa.Const)
+			}
+			if k == nil || k.Value == nil || k.Value.Kind() != constant.String {
+				return nil, false
+			}
+			truth := (constant.StringVal(k.Value) == s) == (bo.Op == token.EQL)
+			if truth {
+				b = b.Succs[0]
+			} else {
+				b = b.Succs[1]
+			}
+		default:
+			return nil, false
+		}
+	}
+	return nil, false
 }
